@@ -1020,26 +1020,24 @@ func (fc *FnCtx) appendElems(et types.Type, s, t Val, tlen string, res Val, fits
 		old := fc.cur.get(name, srt)
 		fr := fc.declareFresh("appelems", inner)
 		fc.cur.set(name, srt, app("store", old, res.L[0], fr))
-		if fc.eng.contentMode && typeKey(et) == "uint8" {
+		if fc.contentOn() && typeKey(et) == "uint8" {
 			fc.hasQuant = true
 			oldArr := app("select", old, s.L[0])
-			// prefix (and, when appending in place, everything below old len) preserved
-			i := qsym(fc.fresh("qi"))
-			pre := fmt.Sprintf("(forall ((%s (_ BitVec 64))) (! (=> (bvult %s %s) (= (select %s (bvadd %s %s)) (select %s (bvadd %s %s)))) :pattern ((select %s (bvadd %s %s)))))",
-				i, i, s.L[2], fr, res.L[1], i, oldArr, s.L[1], i, fr, res.L[1], i)
-			fc.cur.assume(pre)
-			// appended part
-			j := qsym(fc.fresh("qj"))
+			// Quantified over the absolute cell position p (pattern (select fr p)) so that E-matching does not
+			// depend on the shape of index arithmetic. Prefix (when appending in place: everything below the
+			// old length) preserved; then the appended part.
+			pv := qsym(fc.fresh("qp"))
+			rel := app("bvsub", pv, res.L[1])
+			rel2 := app("bvsub", rel, s.L[2])
 			var src string
 			if isStringType(t.T) {
-				src = app("strat", t.L[0], j)
+				src = app("strat", t.L[0], rel2)
 			} else {
-				src = app("select", app("select", old, t.L[0]), app("bvadd", t.L[1], j))
+				src = app("select", app("select", old, t.L[0]), app("bvadd", t.L[1], rel2))
 			}
-			idx := app("bvadd", res.L[1], app("bvadd", s.L[2], j))
-			app2 := fmt.Sprintf("(forall ((%s (_ BitVec 64))) (! (=> (bvult %s %s) (= (select %s %s) %s)) :pattern ((select %s %s))))",
-				j, j, tlen, fr, idx, src, fr, idx)
-			fc.cur.assume(app2)
+			ax := fmt.Sprintf("(forall ((%s (_ BitVec 64))) (! (and (=> (bvult %s %s) (= (select %s %s) (select %s (bvadd %s %s)))) (=> (bvult %s %s) (= (select %s %s) %s))) :pattern ((select %s %s))))",
+				pv, rel, s.L[2], fr, pv, oldArr, s.L[1], rel, rel2, tlen, fr, pv, src, fr, pv)
+			fc.cur.assume(ax)
 		}
 	}
 }
@@ -1051,7 +1049,7 @@ func (fc *FnCtx) copyElems(et types.Type, dst, src Val, n string) {
 		fc.cur = fc.cur.havocked(ns)
 		return
 	}
-	precise := fc.eng.contentMode || typeKey(et) != "uint8"
+	precise := fc.contentOn() || typeKey(et) != "uint8"
 	if isStringType(src.T) {
 		precise = false
 	}
@@ -1174,4 +1172,8 @@ func isCancelFunc(v ssa.Value) bool {
 		return ex.Index == 1
 	}
 	return false
+}
+
+func (fc *FnCtx) contentOn() bool {
+	return fc.eng.contentMode || (fc.c != nil && fc.c.Content)
 }
